@@ -212,9 +212,8 @@ class Engine(object):
                         if r == z3.unsat:
                             ok = True
                         else:
-                            self.s.add(z3.Not(ok.z))
+                            m = self.s.model()      # model of pc && !ok (taken before anything else touches the solver)
                             ok = False
-                            m = self.s.model()
                     elif not ok:
                         r = self.check()
                         if r != z3.sat:
